@@ -701,7 +701,8 @@ def run_check(prop_id, cases, *, tier, bounds, stubs, assumptions, level_text=""
     seed = int(os.environ.get("VERIF_SEED", "0") or 0)
     timeout_ms = timeout_ms or (10000 if tier == "quick" else 60000)
     jobs = jobs or int(os.environ.get("VERIF_JOBS", "0") or 0) or min(16, os.cpu_count() or 4)
-    deadline = (t0 + budget_s) if budget_s else None
+    budget_s = budget_s or (600 if tier == "quick" else 3600)
+    deadline = t0 + budget_s
     instrument("ropt")
     global _CASES, _OPTS
     _CASES = list(cases)
